@@ -16,3 +16,17 @@ package conversions
 //@ structural cte-no-stores-into-bigint: no_stores_into math/big.Int in cte
 //@ structural cbe-no-stores-into-bigfloat: no_stores_into math/big.Float in cbe
 //@ structural cte-no-stores-into-bigfloat: no_stores_into math/big.Float in cte
+
+// Bounded work (C07): turning a decimal float into a big integer computes 10^exponent; the exponent
+// of a document value is attacker-controlled (up to 2^31), so the conversion is only reached when the
+// exponent is within the configured maximum - compared as it is stored, without arithmetic that could
+// wrap. The library call is given the bound as its precondition.
+//@ extern github.com/kstenerud/go-compact-float::(DFloat).BigInt
+//@   requires this.Exponent <= 0x10000
+//@   modifies alloc
+//@   may_panic
+//@ func DecimalFloatToBigInt
+//@   requires maxBase10Exponent >= 0 && maxBase10Exponent <= 0x10000
+//@   modifies alloc
+//@   may_panic
+//@   ensures value.Exponent > int32(maxBase10Exponent) ==> result1 != nil
